@@ -152,11 +152,15 @@ def pin_modules(modules, only=None):
 		if only and module.name not in only:
 			continue
 		pinned = {}
-		for relpath, qualname, _ in module.anchors:
-			pinned[f'{relpath}::{qualname}'] = shapes.pin_entry(relpath, qualname)
-		for relpath, qualname, _ in module.constexprs:
-			node = find_def(shapes.tree(relpath), qualname)
-			pinned[f'{relpath}::{qualname}'] = {'skeleton': 'constexpr', 'atoms': [], 'value': const_eval(node.value)}
+		try:
+			for relpath, qualname, _ in module.anchors:
+				pinned[f'{relpath}::{qualname}'] = shapes.pin_entry(relpath, qualname)
+			for relpath, qualname, _ in module.constexprs:
+				node = find_def(shapes.tree(relpath), qualname)
+				pinned[f'{relpath}::{qualname}'] = {'skeleton': 'constexpr', 'atoms': [], 'value': const_eval(node.value)}
+		except Exception as ex:  # pylint: disable=broad-except
+			print(f'NOT pinned {module.name}: {ex}')
+			continue
 		(Shapes.PINNED_DIR / f'{module.name}.json').write_text(json.dumps(pinned, indent=1, sort_keys=True) + '\n', encoding='utf8')
 
 
@@ -178,6 +182,7 @@ def regenerate(shapes=None):
 	shapes = shapes or Shapes()
 	result = {}
 	for module in all_modules():
+		shapes.use(module.name)
 		result[module.name] = module.write(shapes)
 		if hasattr(module, 'extra'):
 			module.extra(shapes)
